@@ -531,7 +531,7 @@ class EdgeLib(LibBase):
     def set_obj_attr(self, ex, base, attr, v, st, lineno):
         f = self._node_list_field(ex, base, attr)
         if f is not None:
-            if isinstance(v, SList) and v.ekind == ("any",):
+            if isinstance(v, SList) and v.ekind == ("any",) and V.is_literally_empty(v):
                 st.f[f] = V.list_empty(("obj", "edge"))
                 st.f[f + ".isnone"] = VBool(False)
                 return [Outcome("next", st)]
